@@ -183,7 +183,7 @@ theorem defines_absStmt (num : Bytes → Nat) {enc : Encoder} (fs : Bytes → Op
 /-! ## the recursive call -/
 
 /-- what the recursive call of `.include` does, seen from the includer (`proj path data`: the included tree is free of
-`.global/.import/.export`, operands `plain`): the regions go through an execution of the layout core on a flattening
+`.global/.import/.export`): the regions go through an execution of the layout core on a flattening
 `pc` of the included file followed by its own task queue; the includer's tables and queues are as before; the symbols
 defined are those of the instances `id ≤ j < id'` -/
 def IncSim (num : Nat → Bytes → Nat) (enc : Encoder) (fs : Bytes → Option Bytes) (inc : Inc) (proj : Bytes → Bytes → Prop) : Prop :=
@@ -210,7 +210,7 @@ theorem doAssemble_sim (hinj : NumInj num) (henc : EncLen enc) (fs : Bytes → O
     (hincr : IncRel inc) (env : Env) (path : Bytes) (rest : List Bytes) (henv : env.paths = path :: rest)
     (perr : Option ParseErr) (id : Nat) :
     ∀ (els : List Element) (st stf : St) (l : Layout.State) (nxt : Nat),
-      (∀ el ∈ els, okInc el = true ∧ plainEl el = true ∧ ∀ p' d', incTarget fs path el = some (p', d') → proj p' d') →
+      (∀ el ∈ els, okInc el = true ∧ ∀ p' d', incTarget fs path el = some (p', d') → proj p' d') →
       Sim (num id) enc t₂ G Gt st l → id < nxt → (∀ j n, nxt ≤ j → l.env.get (num j n) = none) →
       doAssemble fs enc inc env els perr st = .ok (stf, .ok) → stf.errors = [] → stf.locals = some t₂ →
       ∃ p lf nxt', nxt ≤ nxt' ∧ MRun l p lf ∧ Sim (num id) enc t₂ G Gt stf lf ∧
@@ -250,7 +250,7 @@ theorem doAssemble_sim (hinj : NumInj num) (henc : EncLen enc) (fs : Bytes → O
         obtain ⟨t, hl, hnd, hsub, henvr⟩ := sim.tbl
         obtain ⟨q, hq, hqr⟩ := sim.tasks
         obtain ⟨els', perr', t', pc, l1, l2, id', hparse, hlt, hm, hrt, hR, e1, e2, e3, e4, hcur, hwf, hframe, hflat⟩ :=
-          hincs env st st1 d' p' nxt l (hel.2.2 _ _ htgt) sim.good henv' sim.r hfresh hcall herr1
+          hincs env st st1 d' p' nxt l (hel.2 _ _ htgt) sim.good henv' sim.r hfresh hcall herr1
         have sim1 : Sim (num id) enc t₂ G Gt st1 (withTasks l.tasks l2) :=
           ⟨good1, hR, ⟨t, by rw [e1]; exact hl, hnd, hsub, fun n => by
               show l2.env.get (num id n) = _
@@ -282,7 +282,7 @@ theorem doAssemble_sim (hinj : NumInj num) (henc : EncLen enc) (fs : Bytes → O
       · -- an ordinary statement
         have hi' : isInclude el = false := by simpa using hi
         have hokel := okEl_of hel.1 hi'
-        obtain ⟨l1, s1, s2, s3⟩ := statement_sim (hinj.inj id) henc sim fs inc env path henv el hokel hel.2.1 hs herr1 hT
+        obtain ⟨l1, s1, s2, s3⟩ := statement_sim (hinj.inj id) henc sim fs inc env path henv el hokel hs herr1 hT
         have sim1 : Sim (num id) enc t₂ G Gt st1 l1 := ⟨good1, s2.r, s2.tbl, s2.tasks, s2.gl⟩
         have henv1 : ∀ j n, j ≠ id → l1.env.get (num j n) = l.env.get (num j n) := fun j n hj =>
           Layout.step_env_raw l l1 _ s1 _ (fun hd => by
@@ -311,7 +311,7 @@ theorem fileBody_sim (hinj : NumInj num) (henc : EncLen enc) (fs : Bytes → Opt
     (proj : Bytes → Bytes → Prop) (hincs : IncSim num enc fs inc proj) (hinc : IncOk inc) (hincg : IncGrew inc)
     (hincr : IncRel inc) (env1 : Env) (path : Bytes) (rest : List Bytes) (henv : env1.paths = path :: rest)
     (data : Bytes) (id : Nat) (st2 st4 : St) (res : Res) (l2 : Layout.State)
-    (hproj : ∀ els perr, parseFile data = .ok (els, perr) → ∀ el ∈ els, okInc el = true ∧ plainEl el = true ∧
+    (hproj : ∀ els perr, parseFile data = .ok (els, perr) → ∀ el ∈ els, okInc el = true ∧
       ∀ p' d', incTarget fs path el = some (p', d') → proj p' d')
     (good : Good true st2) (r : R st2.seg l2) (hloc : st2.locals = some []) (hlt : st2.localTasks = some [])
     (hlk : l2.tasks = []) (hfresh : ∀ j n, id ≤ j → l2.env.get (num j n) = none)
@@ -401,11 +401,11 @@ theorem fileBody_sim (hinj : NumInj num) (henc : EncLen enc) (fs : Bytes → Opt
           exact g2.env n
 
 /-- every file of the include tree below (`path`, `data`), to depth `fuel`, is free of `.global / .import / .export`
-and its operand trees are `plain` -/
+(no condition on the operand trees any more: `evaluate` is idempotent, Lemmas/SimpNF.lean) -/
 def LocalProject (fs : Bytes → Option Bytes) : Nat → Bytes → Bytes → Prop
   | 0, _, _ => True
   | fuel + 1, path, data => ∀ els perr, parseFile data = .ok (els, perr) → ∀ el ∈ els,
-      okInc el = true ∧ plainEl el = true ∧ ∀ p' d', incTarget fs path el = some (p', d') → LocalProject fs fuel p' d'
+      okInc el = true ∧ ∀ p' d', incTarget fs path el = some (p', d') → LocalProject fs fuel p' d'
 
 theorem assembleFile_sim (hinj : NumInj num) (henc : EncLen enc) (fs : Bytes → Option Bytes) :
     ∀ fuel, IncSim num enc fs (assembleFile fs enc fuel) (LocalProject fs fuel) := by
